@@ -9,7 +9,7 @@ export CARGO_NET_OFFLINE=true CARGO_TARGET_DIR=/tmp/confirm_target
 [ -d $WT ] || git -C /repo worktree add -q --detach $WT HEAD || exit 2
 cd $WT && git checkout -q --detach $(git -C /repo rev-parse HEAD) && git checkout -q -- . && git clean -fdq
 suite() { cargo test --workspace --no-fail-fast --offline 2>&1 | grep -E "^test |test result" ; }
-summ() { grep -E "^test .*(FAILED|failed)" | sort | tr '\n' ';'; }
+summ() { grep -E "^test .*(FAILED|failed)" | grep -v "^test result" | sort | tr '\n' ';'; }
 PATCH=$SRC/patch$K.diff
 [ -f $PATCH ] || { echo "$ID/$K: no patch"; exit 1; }
 if [ -f $SRC/demo$K.rs ]; then DEMO=$SRC/demo$K.rs; KIND=rs; elif [ -f $SRC/demo$K.diff ]; then DEMO=$SRC/demo$K.diff; KIND=diff; else echo "$ID/$K: no demo"; exit 1; fi
@@ -33,7 +33,7 @@ OK=1
 [ -n "$F1" ] || { OK=0; echo "$ID/$K: demo does NOT fail with the patch"; }
 [ "$S1F" = "test voronoi::tests::test_non_perturbed_z ... FAILED;" ] || { OK=0; echo "$ID/$K: suite result differs with the patch: $S1F"; }
 [ "$S1N" -ge 40 ] || { OK=0; echo "$ID/$K: suite ran only $S1N ok tests"; }
-echo "$ID/$K: ok=$OK suite_ok_tests=$S1N suite_failed=[$S1F] demo_failed_with_patch=[$(echo "$F1" | tr '\n' ';' | cut -c1-200)]"
+echo "$ID/$K: ok=$OK suite_ok_tests=$S1N demo_failed_with_patch=$(echo "$F1" | grep -c FAILED)"
 if [ $OK = 1 ]; then
   OUT=/verif/seeded/$ID-$K; mkdir -p $OUT
   cp $PATCH $OUT/patch.diff; cp $DEMO $OUT/demo.$KIND; cp $SRC/notes$K.md $OUT/notes.md 2>/dev/null
